@@ -90,6 +90,22 @@ CHECKS = {
          'overload forwarding (R-LEG).',
          'clang 14 AST/CFG; a version word changes only through the enumerated calls',
          'DESIGN.md section 5, C12'),
+ 'C07': ('who-may-free table over resolved release sites, unpublished-object typestate, retire/tag rules, guard '
+         'dominance and affine slack of the GC epoch, non-zero fold rule, gated epoch advance',
+         'Decides that every release site belongs to the frozen who-may-free table and speculative deletes act on '
+         'unpublished objects (R-WMF); unlink implies retire with the session\'s own begin epoch (R-RET); the GC frees '
+         'only entries below the GC epoch with at least two epochs of slack (R-GCG); only non-zero begin epochs enter '
+         'the minimum (R-MIN); the epoch advances only after all sessions caught up (R-ADV); enter publishes / leave '
+         'clears the begin epoch (R-PUB). Absence of use-after-free over all interleavings is not decided.',
+         'clang 14 AST/CFG; begin epoch 0 means not in a session; the non-atomic table scan is undecided',
+         'DESIGN.md section 5, C07'),
+ 'C11': ('allocation-ownership typestate with computed consumption summaries (E-OWN); drain / teardown agreement rules',
+         'Decides on every CFG path that each allocation is transferred, retired, returned or freed exactly once '
+         '(R-OWN), that a displaced value is retired (R-SWAP), that fin drains every container the GC fills and every '
+         'session (R-DRAIN), and that recursive teardown covers every link with an exactly-once hand-over to the GC '
+         '(R-DESTROY). Allocator balance over histories is not decided.',
+         'clang 14 AST/CFG; objects stored into the tree are released by teardown / GC',
+         'DESIGN.md section 5, C11'),
 }
 
 NOT_APPLICABLE = {
